@@ -14,7 +14,7 @@
     psfmap  <hdr> a b pa ra dec    -> sx sy theta (get_psf_sky2pix)  sx sy theta (get_psf_pix2pix)  area_pix
                                       for a psf MAP whose value at (ra, dec) is (a, b, pa)
     leaf    <name> args…           -> value           (one regenerated arithmetic leaf: translator self-check)
-  <hdr> = PROJ crval1 crval2 crpix1 crpix2 cdelt1 cdelt2
+  <hdr> = PROJ crval1 crval2 crpix1 crpix2 cd11 cd12 cd21 cd22   (the CD matrix, degrees per pixel)
 -/
 import Aegean.Driver.Common
 import Aegean.Generated.C16
@@ -49,8 +49,8 @@ def handle (ws : List String) : String :=
     | none => "bad-op"
   | op :: p :: rest =>
     match proj? p, rest.mapM parseFloat? with
-    | some pr, some (v1 :: v2 :: x1 :: x2 :: d1 :: d2 :: a) =>
-      let h : ZenHdr Float := ⟨pr, v1, v2, x1, x2, d1, d2⟩
+    | some pr, some (v1 :: v2 :: x1 :: x2 :: c11 :: c12 :: c21 :: c22 :: a) =>
+      let h : ZenHdr Float := ⟨pr, v1, v2, x1, x2, c11, c12, c21, c22⟩
       let W := zenWcs h
       match op, a with
       | "p2w", [p1, p2] => let s := zenP2W h p1 p2; fl [s.1, s.2]
